@@ -47,6 +47,7 @@ type Grammar struct {
 	Finite bool // finitely many distinct trees per input
 	LRFree bool // no left recursion (C03)
 	Recursive bool
+	InAlpha []byte // when set: the input alphabet used by C17 (instead of all terminals)
 	MaxN   int // 0: no limit; otherwise inputs longer than this are outside the claim (result sets explode)
 }
 
@@ -126,7 +127,8 @@ func Curated() []*Grammar {
 // Systematic builds the k-th sampled grammar of the generated part of the
 // family: two memoized nonterminals, each a union (Any; one in five a Choice)
 // of 1..3 alternatives, each alternative a sequence of 1..3 symbols from
-// {a, b, P, Q} or, one time in six, an optional group (x)?, (xy)? or a
+// {a, b, P, Q} or — one time in three at the head of an alternative (hidden
+// left recursion), one in eight elsewhere — an optional group (x)?, (xy)? or a
 // repetition x+ over terminals. The sample
 // is drawn by a fixed pseudo-random sequence from the seed, so every run with
 // the same seed checks the same grammars and different seeds check others.
@@ -145,12 +147,19 @@ func Systematic(seed, k int) *Grammar {
 	}
 	name := ""
 	sym := func() (*G, string) {
-		switch next(4) {
+		// nonterminals a little more often than terminals: the interesting
+		// behaviour (curtailment, cache reuse) lives in the recursion
+		switch next(5) {
 		case 0:
 			return T('a'), "a"
 		case 1:
 			return T('b'), "b"
 		case 2:
+			return N(0), "P"
+		case 3:
+			return N(1), "Q"
+		}
+		if next(2) == 0 {
 			return N(0), "P"
 		}
 		return N(1), "Q"
@@ -189,7 +198,7 @@ func Systematic(seed, k int) *Grammar {
 				var g *G
 				var n string
 				switch {
-				case l >= 2 && next(6) == 0 && !(choice && j == 0):
+				case l >= 2 && !(choice && j == 0) && ((j == 0 && next(3) == 0) || (j > 0 && next(8) == 0)):
 					// an optional group of one or two terminals, or a repetition
 					t1, n1 := term()
 					switch next(3) {
